@@ -58,6 +58,10 @@ def historyHandlerCore (versioned : Bool) : Handler
           throw s!"revision {k}: a step of the workflow failed: {s.errs}"
         if s.nextUp != "" || s.nextDown != "" then
           throw s!"revision {k}: after appending the migration the next diff is not empty: up={SExp.quote s.nextUp} down={SExp.quote s.nextDown}"
+        k := k + 1
+    let fingerprint : Check := do
+      let mut k := 0
+      for s in steps do
         -- a versioned folder (WriteFilesWithVersion, version 0 first) declares the bookkeeping table, which HashValue
         -- counts: C04 speaks of WriteFiles, so the fingerprints are not compared there (DESIGN.md section 8)
         if !versioned && s.hashHist != s.hashModels then
@@ -76,7 +80,10 @@ def historyHandlerCore (versioned : Bool) : Handler
           let down ← parseImpl g s!"down migration of revision {k}" s.down
           c13NoPositions (up ++ down)
           k := k + 1
-    some (((judge "C04" regionConv converge).and (judge "C04" (region.map (· ++ "/replay")) (replay g steps))).and
+    -- the fingerprint clause has one more recorded region: a revision that lists a new table before an old one
+    let regionFp := regionConv.orElse fun _ => Scope.c04Order [] scripts
+    some ((((judge "C04" regionConv converge).and (judge "C04" (regionFp.map (· ++ "/fingerprint")) fingerprint)).and
+      (judge "C04" (region.map (· ++ "/replay")) (replay g steps))).and
       (judge "C13" regionConv noPositions))
   | _ => none
 
